@@ -8,7 +8,9 @@ CFG = dict(
           "undecodable / no header / empty source / unmappable source, never delivered then, else delivered at most once to a Read "
           "of the connection of the mapped address as the decoded value, announced once per connection, no reachable state is "
           "Crashed, one cleaner pass removes exactly the connections idle >= timeout and closes their done channel, blocked "
-          "Read/Write/parked request only under the stated conditions (C19_http_*). The protobuf wire format of the Rpc schema is "
+          "Read/Write/parked request only under the stated conditions (C19_http_*); no refusal depends on size: the encoding of "
+          "every canonical envelope with a mappable source, whatever the length of its body, is classified 'deliver' and never "
+          "answered 400 (C19_http_accepts_every_envelope, C19_http_never_400_on_envelope). The protobuf wire format of the Rpc schema is "
           "modelled byte by byte (Model/WireFormat.v) with the proved round trip C19_wire_roundtrip: forall e, wf e -> decode "
           "(encode e) = Some e, which retires the codec assumption: C19_ws_end_to_end / C19_http_end_to_end state that what is "
           "written is what is read, in order. Every run drives the real NewGoatOverChannel, goatOverWebsocket (over coder/websocket "
@@ -27,7 +29,8 @@ CFG = dict(
               "C19_ws_end_to_end", "C19_http_400_iff", "C19_http_classify", "C19_http_rejected_not_delivered",
               "C19_http_delivery_correct", "C19_http_at_most_once", "C19_http_announce_once", "C19_http_post_step",
               "C19_http_no_crash", "C19_http_idle", "C19_http_blocked_read", "C19_http_parked_request",
-              "C19_http_blocked_write", "C19_http_cleaner_settled", "C19_http_end_to_end"],
+              "C19_http_blocked_write", "C19_http_cleaner_settled", "C19_http_end_to_end",
+              "C19_http_accepts_every_envelope", "C19_http_never_400_on_envelope"],
     imports=["Base.Bytes", "Model.WireFormat", "Model.Transports", "Check.C19c"],
     case_type="c19case", find_bad_from="find_bad_from",
     rigs=[dict(test="TestC19Wire", timeout_quick=300, timeout_thorough=1200),
@@ -38,7 +41,8 @@ CFG = dict(
     reason_text={"1": "the real transport / codec differs from the Gallina model (Model/Transports.v, Model/WireFormat.v): no "
                       "quiescent model state predicts the observation, or encode/decode differ from proto.Marshal/Unmarshal",
                  "2": "the observed history violates the property predicate (Check/C19c.v: round trip, spec_chan, spec_ws, "
-                      "spec_http, CAssert)",
+                      "spec_http, CHttpRaw = the 400-iff classification, CHttpE2E = written without error and read equal, CAssert 1 = a parked "
+                      "Write ends with its context, CAssert 2 = the channel transport hands over a 1 MiB envelope unchanged)",
                  "3": "a Read/Write whose context is done was still blocked at quiescence (spec_chan_ctx)"},
     rule="wire: every present/absent combination of the 5 sub-messages x ids {0,1,127,128,...,2^63,2^64-1} x bodies {0,1,17,300,"
          "64KiB (thorough: 1MiB)} x empty/ASCII/non-ASCII/NUL/long strings x repeated fields 0..5, invalid UTF-8 in every string "
@@ -48,7 +52,13 @@ CFG = dict(
          "over {Write, text frame, garbage / unusual / invalid binary frames, Read, cancel, break}, seeded random longer ones; HTTP: "
          "every request shape alone and with a waiting reader, ALL sequences of length <= 4 (thorough 5) over {valid posts to two "
          "sources of one address, invalid post, tick, half tick, NewConnection, Read, failing Write, cancel}, seeded random longer "
-         "ones over 3 clock settings incl. Stop and cancelled Writes; end-to-end over loopback HTTP with the envelope generator; "
+         "ones over 3 clock settings incl. Stop and cancelled Writes; end-to-end over loopback HTTP with the envelope generator, every envelope followed by a marker "
+         "envelope so that a lost one shows as 'nothing read before the marker' (no timeout decides); THE UPPER END OF THE BODY RANGE in "
+         "every tier and every rig (wire, channel, WebSocket with the read limit lifted, HTTP lock-step with and without a waiting reader, "
+         "HTTP end to end): bodies of 1 MiB - 4096, 1 MiB - 1, exactly 1 MiB, and 1 MiB inside the largest envelope the property covers "
+         "(every sub-message, long strings), built on both sides from (seed, length) (cyc_body) instead of spelt out; request framings: "
+         "bodies of unknown length arriving in pieces (lock-step: small, garbage, empty, 1 MiB; raw over loopback: chunked small and 1 MiB), "
+         "a Content-Length larger than what is sent (unreadable) and smaller (the prefix), judged by http_classify (CHttpRaw); "
          "non-trivial = distinct description hash",
     assumptions=["coder/websocket, net/http, clockwork, Go channels/select and the scheduler are modelled, not verified",
                  "google.golang.org/protobuf and the generated Rpc code are validated against Model/WireFormat.v on every run, not verified from source",
